@@ -247,6 +247,18 @@ def run(ctx, rep):
     rep.rule("C15.a2", "no storage effect can precede an append-only guard in its frame")
     rep.rule("C15.c", "with dry_run flags true no W/RM/CREATE effect is reachable from a function that reads a dry_run flag")
 
+    # ---- completeness of the call graph the proof-level claim rests on -----------------------------------------
+    INDIRECT_OK = {"commands::forget::KeepOptions::matches": "calls one of the nine period predicates through a fn pointer taken from a constant table (pure functions)"}
+    nind = 0
+    for b in prog.by_crate["rustic_core"]:
+        for (bb, t, kind, tgts, info) in cg.sites(b):
+            if kind == "indirect":
+                nind += 1
+                why = INDIRECT_OK.get(fn_key(b))
+                rep.check("C15.a", f"call-graph/indirect/{fn_key(b)}", why is not None, where=where(b, bb),
+                          what=f"{fn_key(b)}: indirect call [{why}]" if why else
+                               f"{fn_key(b)}: call through a function pointer / dyn Fn whose targets the call graph cannot enumerate: the 'guard on every call path' claim is not established for paths through this site", nontrivial=False)
+    rep.count("C15.a: indirect call sites in rustic_core (targets not enumerable)", nind)
     # ---- C15.a -------------------------------------------------------------------------------
     helpers = compute_ao_helpers(prog)
     rep.observe(f"append-only guard helpers (always Err under append_only == Some(true)): {[strip_crate(h) for h in helpers]}; bool predicates of the field: { {strip_crate(k): v for k, v in AO_PREDICATES.items()} }")
